@@ -964,4 +964,245 @@ theorem Apply_idem_single (c : ACtx) (d : Doc) (op key : String) (v : V) (afs : 
     rw [h2]
     exact ⟨s2.changed, by simp only [hd]⟩
 
+/-! ### `$[identifier]`: only the array filters that bind the identifier select elements -/
+
+/-- the identifier of an operator segment `$[identifier]` (resolve.go: `operator[2 : len(operator)-1]`). -/
+def identifierOf (operator : String) : String := String.ofList ((operator.toList.drop 2).dropLast)
+
+/-- `f` matches the wrapper document `{id: item}` (query matcher `Match`). -/
+def filterHolds (sch : SchemaEval) (id : String) (item : V) (f : Doc) : Bool :=
+  match Match sch [(id, item)] f with
+  | .ok true => true
+  | _ => false
+
+/-- the element satisfies some filter that binds `id`. -/
+def selectedBy (sch : SchemaEval) (id : String) (afs : List Doc) (item : V) : Bool :=
+  (afs.filter (bindsId id)).any (filterHolds sch id item)
+
+theorem anyFilter_ok (sch : SchemaEval) (id : String) (item : V) (fs : List Doc) (b : Bool)
+    (h : anyFilter sch id item fs = .ok b) : b = fs.any (filterHolds sch id item) := by
+  induction fs with
+  | nil => unfold anyFilter at h; cases h; rfl
+  | cons f r ih =>
+    unfold anyFilter at h
+    split at h
+    · cases h
+    · rename_i hm; cases h; simp [filterHolds, hm]
+    · rename_i hm
+      rw [ih h]
+      simp [filterHolds, hm]
+
+/-- the generic loop: what it returns when every step is either "skip" (element not selected) or the
+    sub-expansion of the index. -/
+theorem loopIdx_ok_eq (f : Nat → V → Res (Option (List String))) (sel : V → Bool) (sub : Nat → List String)
+    (hn : ∀ k x, f k x = .ok none → sel x = false)
+    (hs : ∀ k x qs, f k x = .ok (some qs) → sel x = true ∧ qs = sub k)
+    (i : Nat) (xs : List V) (ps : List String) (h : loopIdx f i xs = .ok ps) :
+    ps = (((xs.zipIdx i).filter (fun a => sel a.1)).map (fun a => sub a.2)).flatten := by
+  induction xs generalizing i ps with
+  | nil => unfold loopIdx at h; cases h; rfl
+  | cons x r ih =>
+    unfold loopIdx at h
+    rw [List.zipIdx_cons]
+    split at h
+    · cases h
+    · rename_i hf
+      rw [List.filter_cons_of_neg (by simp [hn _ _ hf])]
+      exact ih _ _ h
+    · rename_i qs hf
+      split at h
+      · cases h
+      · rename_i rs hr
+        cases h
+        obtain ⟨h1, h2⟩ := hs _ _ _ hf
+        rw [List.filter_cons_of_pos (by simpa using h1), List.map_cons, List.flatten_cons, ← ih _ _ hr, h2]
+
+/-- congruence of the loop in its step function. -/
+theorem loopIdx_congr (f g : Nat → V → Res (Option (List String))) (h : ∀ k x, f k x = g k x) (i : Nat)
+    (xs : List V) : loopIdx f i xs = loopIdx g i xs := by
+  have : f = g := funext fun k => funext fun x => h k x
+  rw [this]
+
+/-- one level of `resolve` at an identified positional operator, unfolded. -/
+theorem resolve_identified (sch : SchemaEval) (fuel : Nat) (path head operator : String) (tail : Option String)
+    (doc : Doc) (afs : List Doc) (array : List V)
+    (hsp : splitDynamicPath path = (some head, some operator, tail))
+    (ha : Get doc head = .arr array)
+    (h1 : (operator == "$") = false) (h2 : operator.startsWith "$[" = true) (h3 : operator.endsWith "]" = true)
+    (hid : (identifierOf operator == "") = false) :
+    resolve sch (fuel + 1) path doc afs =
+      if (afs.filter (bindsId (identifierOf operator))).isEmpty then .error .err else
+      loopIdx (fun i item =>
+        match anyFilter sch (identifierOf operator) item (afs.filter (bindsId (identifierOf operator))) with
+        | .error e => .error e
+        | .ok false => .ok none
+        | .ok true =>
+          match resolve sch fuel (buildPath head i tail) doc afs with
+          | .error e => .error e
+          | .ok ps => .ok (some ps)) 0 array := by
+  unfold identifierOf at *
+  rw [resolve]
+  simp only [hsp, ha, h1, h2, h3, hid, Bool.false_eq_true, if_false, Bool.not_true, Bool.or_self]
+  rfl
+
+/-- the declarative reading of `selectedBy`. -/
+theorem selectedBy_iff (sch : SchemaEval) (id : String) (afs : List Doc) (item : V) :
+    selectedBy sch id afs item = true ↔
+      ∃ f ∈ afs, bindsId id f = true ∧ Match sch [(id, item)] f = .ok true := by
+  unfold selectedBy
+  simp only [List.any_eq_true, List.mem_filter]
+  constructor
+  · rintro ⟨f, ⟨hf, hb⟩, hm⟩
+    refine ⟨f, hf, hb, ?_⟩
+    unfold filterHolds at hm
+    split at hm
+    · assumption
+    · cases hm
+  · rintro ⟨f, hf, hb, hm⟩
+    exact ⟨f, ⟨hf, hb⟩, by simp [filterHolds, hm]⟩
+
+/-- the sub-expansion of one index (empty if that recursive call fails — it does not when the whole
+    expansion succeeds). -/
+def subPaths (sch : SchemaEval) (fuel : Nat) (doc : Doc) (afs : List Doc) (p : String) : List String :=
+  match resolve sch fuel p doc afs with
+  | .ok qs => qs
+  | .error _ => []
+
+/-- the indices of the array whose element is selected, ascending. -/
+def selectedIdx (sch : SchemaEval) (id : String) (afs : List Doc) (array : List V) : List Nat :=
+  ((array.zipIdx).filter (fun a => selectedBy sch id afs a.1)).map (·.2)
+
+theorem mem_selectedIdx (sch : SchemaEval) (id : String) (afs : List Doc) (array : List V) (k : Nat) :
+    k ∈ selectedIdx sch id afs array ↔ ∃ item, array[k]? = some item ∧ selectedBy sch id afs item = true := by
+  unfold selectedIdx
+  simp only [List.mem_map, List.mem_filter, Prod.exists, exists_eq_right, List.mem_zipIdx_iff_getElem?]
+
+theorem selectedIdx_sorted (sch : SchemaEval) (id : String) (afs : List Doc) (array : List V) :
+    (selectedIdx sch id afs array).Pairwise (· < ·) := by
+  unfold selectedIdx
+  have h : (array.zipIdx.map (·.2)).Pairwise (· < ·) := by
+    rw [List.zipIdx_map_snd]
+    exact List.pairwise_lt_range'
+  rw [List.pairwise_map] at h ⊢
+  exact h.sublist List.filter_sublist
+
+/-- general (recursive) form: a successful expansion of `head.$[id].tail` is the concatenation, over
+    exactly the selected indices in ascending order, of the expansions of `head.k.tail`. -/
+theorem resolve_identified_ok (sch : SchemaEval) (fuel : Nat) (path head operator : String) (tail : Option String)
+    (doc : Doc) (afs : List Doc) (array : List V) (ps : List String)
+    (hsp : splitDynamicPath path = (some head, some operator, tail))
+    (ha : Get doc head = .arr array)
+    (h1 : (operator == "$") = false) (h2 : operator.startsWith "$[" = true) (h3 : operator.endsWith "]" = true)
+    (hid : (identifierOf operator == "") = false)
+    (h : resolve sch (fuel + 1) path doc afs = .ok ps) :
+    ps = ((selectedIdx sch (identifierOf operator) afs array).map
+        (fun k => subPaths sch fuel doc afs (buildPath head k tail))).flatten := by
+  rw [resolve_identified sch fuel path head operator tail doc afs array hsp ha h1 h2 h3 hid] at h
+  split at h
+  · cases h
+  · have := loopIdx_ok_eq _ (selectedBy sch (identifierOf operator) afs)
+      (fun k => subPaths sch fuel doc afs (buildPath head k tail)) ?_ ?_ 0 array ps h
+    · rw [this]; unfold selectedIdx; rw [List.map_map]; rfl
+    · intro k x hf
+      split at hf
+      · cases hf
+      · rename_i ha; exact (anyFilter_ok _ _ _ _ _ ha).symm
+      · split at hf <;> cases hf
+    · intro k x qs hf
+      split at hf
+      · cases hf
+      · cases hf
+      · rename_i ha
+        split at hf
+        · cases hf
+        · rename_i rs hr
+          cases hf
+          exact ⟨(anyFilter_ok _ _ _ _ _ ha).symm, by simp [subPaths, hr]⟩
+
+theorem noDollar_append (a b : String) : noDollar (a ++ b) = (noDollar a && noDollar b) := by
+  simp [noDollar, String.toList_append]
+
+theorem noDollar_natToString (k : Nat) : noDollar (toString k) = true := by
+  unfold noDollar
+  rw [List.all_eq_true]
+  intro c hc
+  rw [Nat.toString_eq_repr, Nat.toList_repr] at hc
+  have := Nat.isDigit_of_mem_toDigits (by decide) (by decide) hc
+  have hne : c ≠ '$' := by
+    intro e; subst e; revert this; decide
+  simpa using hne
+
+theorem noDollar_buildPath (head : String) (k : Nat) (tail : Option String) (hh : noDollar head = true)
+    (ht : ∀ t, tail = some t → noDollar t = true) : noDollar (buildPath head k tail) = true := by
+  have hdot : noDollar "." = true := by decide
+  have hemp : noDollar "" = true := by decide
+  unfold buildPath
+  have hb : noDollar ((if (head == "") = true then "" else head ++ ".") ++ toString k) = true := by
+    rw [noDollar_append, noDollar_natToString]
+    split
+    · simp [hemp]
+    · simp [noDollar_append, hh, hdot]
+  cases tail with
+  | none => exact hb
+  | some t =>
+    simp only [noDollar_append, hb, hdot, ht t rfl, Bool.and_self]
+
+/-- `array_filter_own`, single `$[id]`: the expansion is exactly the selected indices. -/
+theorem resolve_identified_single (sch : SchemaEval) (fuel : Nat) (path head operator : String) (tail : Option String)
+    (doc : Doc) (afs : List Doc) (array : List V) (ps : List String)
+    (hsp : splitDynamicPath path = (some head, some operator, tail))
+    (ha : Get doc head = .arr array)
+    (h1 : (operator == "$") = false) (h2 : operator.startsWith "$[" = true) (h3 : operator.endsWith "]" = true)
+    (hid : (identifierOf operator == "") = false)
+    (hh : noDollar head = true) (ht : ∀ t, tail = some t → noDollar t = true)
+    (h : resolve sch (fuel + 2) path doc afs = .ok ps) :
+    ps = (selectedIdx sch (identifierOf operator) afs array).map (fun k => buildPath head k tail) := by
+  rw [resolve_identified_ok sch (fuel + 1) path head operator tail doc afs array ps hsp ha h1 h2 h3 hid h]
+  have : ∀ k, subPaths sch (fuel + 1) doc afs (buildPath head k tail) = [buildPath head k tail] := by
+    intro k
+    unfold subPaths
+    rw [resolve_plain _ _ _ _ _ (noDollar_buildPath head k tail hh ht)]
+  simp only [this]
+  generalize selectedIdx sch (identifierOf operator) afs array = l
+  induction l with
+  | nil => rfl
+  | cons a r ih => simp only [List.map_cons, List.flatten_cons, ih, List.singleton_append]
+
+/-- one level: the expansion depends on the filter list only through the filters binding the
+    identifier (and through the recursive expansions). -/
+theorem resolve_filters_congr (sch : SchemaEval) (fuel : Nat) (path head operator : String) (tail : Option String)
+    (doc : Doc) (afs afs' : List Doc) (array : List V)
+    (hsp : splitDynamicPath path = (some head, some operator, tail))
+    (ha : Get doc head = .arr array)
+    (h1 : (operator == "$") = false) (h2 : operator.startsWith "$[" = true) (h3 : operator.endsWith "]" = true)
+    (hid : (identifierOf operator == "") = false)
+    (hf : afs.filter (bindsId (identifierOf operator)) = afs'.filter (bindsId (identifierOf operator)))
+    (hrec : ∀ k, resolve sch fuel (buildPath head k tail) doc afs = resolve sch fuel (buildPath head k tail) doc afs') :
+    resolve sch (fuel + 1) path doc afs = resolve sch (fuel + 1) path doc afs' := by
+  rw [resolve_identified sch fuel path head operator tail doc afs array hsp ha h1 h2 h3 hid,
+    resolve_identified sch fuel path head operator tail doc afs' array hsp ha h1 h2 h3 hid, hf]
+  split
+  · rfl
+  · apply loopIdx_congr
+    intro k x
+    rw [hrec k]
+
+theorem resolve_filters_single (sch : SchemaEval) (fuel : Nat) (path head operator : String) (tail : Option String)
+    (doc : Doc) (afs afs' : List Doc) (array : List V)
+    (hsp : splitDynamicPath path = (some head, some operator, tail))
+    (ha : Get doc head = .arr array)
+    (h1 : (operator == "$") = false) (h2 : operator.startsWith "$[" = true) (h3 : operator.endsWith "]" = true)
+    (hid : (identifierOf operator == "") = false)
+    (hh : noDollar head = true) (ht : ∀ t, tail = some t → noDollar t = true)
+    (hf : afs.filter (bindsId (identifierOf operator)) = afs'.filter (bindsId (identifierOf operator))) :
+    resolve sch (fuel + 2) path doc afs = resolve sch (fuel + 2) path doc afs' := by
+  apply resolve_filters_congr sch (fuel + 1) path head operator tail doc afs afs' array hsp ha h1 h2 h3 hid hf
+  intro k
+  rw [resolve_plain _ _ _ _ _ (noDollar_buildPath head k tail hh ht),
+    resolve_plain _ _ _ _ _ (noDollar_buildPath head k tail hh ht)]
+
+/-- inserting / removing a filter that does not bind `id` keeps the binding filters. -/
+theorem filter_bindsId_insert (id : String) (afs₁ afs₂ : List Doc) (g : Doc) (hg : bindsId id g = false) :
+    (afs₁ ++ g :: afs₂).filter (bindsId id) = (afs₁ ++ afs₂).filter (bindsId id) := by
+  simp [List.filter_append, hg]
 end Lungo
